@@ -29,7 +29,7 @@ for _pid, _txt, _note in [
      "Bounds: descriptor text <= 6 (8) symbolic characters, mixture body <= 4 (5), one variant at a time, token chemistry concrete. Trusted: CPython's number printing contract (float(repr(x)) == x; printed numbers contain no scanner characters), RDKit for atoms."),
     ("C02", "SmilesToken on symbolic slot sequences (K <= 7 quick / 9 thorough; 1-3 descriptors at fixed positions, all other slots symbolic over 'C ( ) = #', SMILES validity assumed as a z3 precondition): per path z3 proves binding atom and bond order equal an independent OpenSMILES reference binder (cross-checked against RDKit with dummy atoms), plus descriptor-level (symbol, id digits, weights, list totals), structure-level templates (terminals, tokens, weights, family and parameter order) and the mixture specification (absolute mass / percentage in every spelling of the number, 0 % included, through Mixture, Molecule and System), the atom of the descriptor the parser adds to a prefix / suffix that ends in a closed branch, and history-free parsing (a list '|1 2|' and its scalar twin '|12|' parsed one after the other).",
      "Bounds: K, ring closures and bracket / two-letter atoms only through concrete templates. Trusted: RDKit as the meaning of SMILES, numeral-atom contract."),
-    ("C04", "Shared gen-driver: real Molecule.generate with symbolic weights, symbolic drawn targets and all rng.choice outcomes on the skeleton list of checks/gendrive.py (59 small molecules, some also generated after a near twin of them in the same process; N = 2 units per block quick, 3 thorough); every attach_other call is checked for range, openness, conjugation rule (harness formula), bonded atoms and bond order, list bookkeeping; final inter-residue bonds = recorded attachments. The reference reading of every token is its text as written (RDKit with dummy atoms), never the text the code prints back (explicit hydrogens folded as RDKit does at generation level). Plus MolGen.attach_other used directly: one fragment object attached to two cores.",
+    ("C04", "Shared gen-driver: real Molecule.generate with symbolic weights, symbolic drawn targets and all rng.choice outcomes on the skeleton list of checks/gendrive.py (61 small molecules, some also generated after a near twin of them in the same process; N = 2 units per block quick, 3 thorough); every attach_other call is checked for range, openness, conjugation rule (harness formula), bonded atoms and bond order, list bookkeeping; final inter-residue bonds = recorded attachments. The reference reading of every token is its text as written (RDKit with dummy atoms), never the text the code prints back (explicit hydrogens folded as RDKit does at generation level). Plus MolGen.attach_other used directly: one fragment object attached to two cores.",
      "Bounds: skeleton list, N units per block, weights in {0} u [1e-6,1e6]. Stubs: draw_mw (nondeterministic real), embed/UFF (zero conformer), numpy shim, Generator.choice contract. Chemistry assertions are concrete per path; the solver decides which paths exist."),
     ("C05", "Same runs as C04: per finished path residues partition the atoms, are atom-by-atom identical to the token text parsed independently (RDKit with dummy atoms), form a tree with residues-1 bonds, sanitise, carry the written hydrogen counts, masses add up, and the SMILES accessor denotes the molecule of the mol accessor.", "As C04."),
     ("C06", "Same runs as C04 on the closed skeletons: no path ends in an exception, unwinding bound holds, result fully generated, each descriptor bonded exactly once, element order, once-only tokens, >= 1 repeat unit per block, exactly one bond between consecutive elements, end groups are leaves; on every skeleton (also ill-posed ones) a molecule handed back without open descriptor contains every written element.", "As C04; well-posedness is by construction of the skeleton list."),
@@ -55,6 +55,22 @@ for _pid, _txt, _note in [
     ("C16", "Real gen_reaction_graph with symbolic weights on the skeleton list plus test strings and mixed-bond-order molecules: node set, per-node sums = 1 or absent for prob / term_prob / trans_prob, every edge value equals the reference law of C08 as a polynomial identity, edge sets = admissible partners; the molecule is unchanged, a second graph and the graph of the mirror taken afterwards are those of their own objects.", "Bounds: molecule list; weights in {0} u [1e-6,1e6]. Known finding: hand-overs whose admissible partners all have weight zero."),
 ]:
     CHECKS[_pid] = dict(text=_txt, note=_note, ref=f"DESIGN.md §4 {_pid}")
+
+# additions of round 5 (DESIGN.md 9.2 / 9.7b)
+for _pid, _more in {
+    "C01": " Also: a bond symbol written in front of a token that follows a stochastic object (accepted texts must round-trip), objects without repeat unit, end groups without descriptor, equal uniform bounds; rounding formats are followed both as 'any value within the rounding error' and with pinned long mantissas printed by CPython.",
+    "C02": " Bracket atoms keep the isotope, hydrogen count and chirality mark they are written with; equal uniform bounds come back as written; str.strip with numeral-dependent character sets is followed with set semantics.",
+    "C03": " Descriptor states include negative weights and negative list entries.",
+    "C04": " The new unit is attached through the descriptor object that was picked (two descriptors written alike on different atoms); the mass accessor is read before every attachment.",
+    "C09": " Constructor guards written with numpy predicates on the parameters are followed symbolically (isclose forks into clearly-close / boundary band / clearly-far).",
+    "C10": " A generation that ends in an exception leaves the parsed object and its generability unchanged.",
+    "C13": " History peek-then-continue (next(), then a for loop over the same iterator); a polymer component generated by its real code inside the ensemble equals what it generates on its own for the same drawn target, for every system mass in [1, 200].",
+    "C14": " The same System object used twice (generator / single generation in every order) follows the same pick law both times.",
+    "C15": " A negative entry in a transition list with a non-negative sum: generation refuses.",
+    "C18": " A generation still drawing after 400 random decisions (graphs are bounded by 60 atoms) is reported as non-terminating and replayed.",
+    "C20": " Two atom orders of one molecule with fused / hetero-aromatic rings typed through MolGen.forcefield_types get element masses and the same parameter sets (concrete molecules, the solver chooses the pair).",
+}.items():
+    CHECKS[_pid]["text"] += _more
 
 NOT_YET = "check not built yet (work in progress in this round)"
 NOT_APPLICABLE = {
